@@ -11,6 +11,46 @@ NOTE = ("Trusted: Lean 4.33 kernel (axioms audited per theorem to lie within pro
         "types; IEEE rounding is covered by the bit-exact tie plus the exact-rational oracle, not by proof.")
 
 CLAIMED = {
+    "C16": dict(
+        text=("Kernel-checked theorems over any linearly ordered field, for strictly increasing abscissae and n >= 2: the linear scan returns the unique bracketing index; at a knot the result is exactly that knot's ordinate in every mode; inside the range the result is the value on the line through the two neighbouring knots, hence between their ordinates; left of the first abscissa and right of the last the three modes give panic / the left resp. right fill value / the continuation of the first resp. last segment (the right-hand statements were false before repair F28); the checked variant rejects mismatched lengths and any descending step and otherwise agrees with the unchecked one; one outside target aborts the whole call in panic mode; totality otherwise. Tied bit for bit to the Rust code (knot counts 2..200, spacing ratios to 1e6, targets at knots, midpoints, +-1 ulp around knots and beyond both ends, all modes, both variants); exact-rational oracle (exact at knots and fills, derived forward-error bound inside). Rounding of the interior formula is checked, not proved."),
+        design='DESIGN.md §6 C16',
+        technique='Lean 4 proof (scan invariant, segment algebra over ordered fields) + bit-exact correspondence + exact-rational oracle'),
+    "C17": dict(
+        text=("Kernel-checked theorems: binom_coeff's model on 64-bit arithmetic returns exactly C(n,k) for every k <= n with C(n,k) < 2^64 (invariant c = C(n,i), every split division exact, no intermediate overflow, the overflow guard provably never fires while the value fits), with symmetry and Pascal's rule, and any guard/overflow outcome implies C(n,k) >= 2^64; over R: logistic(-x) = 1 - logistic x, 0 < logistic < 1, strictly increasing, logit o logistic = id, logistic o logit = id on (0,1), logit defined exactly on [0,1]; softmax (max-shifted definition of the source): all exponent arguments <= 0, denominator >= 1, entries positive, sum 1, order preserving, = exp x_i / sum exp x_j, shift invariant; Box-Cox = (x^l - 1)/l (ln x at l = 0, the continuous extension) defined iff x > 0, shifted form iff x + shift > 0. Tied bit for bit to the Rust code (all (n,k), n <= 67, and the 64-bit threshold region up to n = 2^64-1 with outcome classes; stratified f32 grids for the transforms) with exact-integer and mpmath oracles; binom_coeff_alt is checked by the oracle only. Rounding of the transforms is checked, not proved."),
+        design='DESIGN.md §6 C17',
+        technique='Lean 4 proof (Nat invariant with explicit u64 range checks, real analysis for logistic/softmax/Box-Cox) + bit-exact correspondence'),
+    "C19": dict(
+        text=("Kernel-checked theorems for every element type, data list, RNG state and fuel, about the model of resample.rs on top of an exact model of the alea wyrand generator (validated bit for bit, including the generator state after each call): bootstrap returns exactly the requested number of resamples, each of the original length, every element equal to data[i] for a drawn index i < n; jackknife = [d.eraseIdx i | i < n] in order; shuffle returns a permutation of its input; shuffle_two returns a permutation of the zipped input (one common permutation) and rejects unequal lengths; all four return on length-1 input; on non-empty input the only way not to return is Lemire's rejection loop running out of fuel (no index panic); generator range lemmas (f64 in [0,1), u64_less_than < m, i64_in_range in [a,b]); equal likelihood as a counting statement: for each v < m exactly floor(2^64/m) raw 64-bit words are accepted with output v. Not proved: termination of the rejection loop for every state and the statistical quality of wyrand (searched with the DKW band, alpha = 1e-12, on bootstrap index frequencies). Tied bit for bit (lengths 1..2000, 1..200 resamples, 100 / 1e4 seeds, special values); exact multiset/pairing oracle."),
+        design='DESIGN.md §6 C19',
+        technique='Lean 4 proof (List.Perm invariants over swap sequences, Lemire counting argument on Nat) + bit-exact correspondence incl. RNG state'),
+    "C01": dict(
+        text=("Kernel-checked theorems about the executable model of solve / solve_sys / invert_matrix / Matrix::solve / Matrix::inv: the layout conversions are transposes and mutually inverse; column c of a multi-RHS solve equals the single-RHS solve of column c with one route chosen for all columns; inverse = solve against the identity; Matrix::solve never routes (always LU); the slice solvers take the Cholesky route iff the matrix is exactly symmetric, passes the (ordered-field characterised) positive-diagonal/symmetry predicate and every pivot is positive, otherwise LU; forward and backward substitution return x with T.x = b over any field reading only the relevant triangle. PARTIAL: P.A = L.U, L.L^T = A, luSolve's spec and the floating-point residual bound are not proved; they are decided per run by the bit-exact tie on all six entry points (orders 1..32, all matrix classes of the quantifier, 1..6 right-hand sides) plus an exact big-integer residual oracle ||A X - B|| <= 200 n eps (||A|| ||X|| + ||B||), A.A^-1 = I, and route/entry-point agreement scaled by the condition number."),
+        design='DESIGN.md §6 C01',
+        technique='Lean 4 proof (routing/column/substitution theorems over fields) + bit-exact correspondence + exact residual oracle'),
+    "C03": dict(
+        text=("Kernel-checked theorems: inverse-CDF laws over R for Exponential, Pareto, Gumbel, Uniform (F(sample u) = u or 1-u for every u in (0,1)) and Bernoulli; exact characterisations of the Poisson multiplication method (returns k iff the running product of uniforms first drops to e^-lambda at k) and of binomial inversion (walks C(n,x)p^x q^(n-x), returns the generalised inverse CDF, result <= n, for every n); textbook compositions (ChiSquared = Gamma(k/2, 1/2), Beta = X/(X+Y) in draw order incl. the underflow branch, T formula, MVN = mu + L z via the C05 product theorem, binomial flip, regime routing, Gamma boost below shape 1); support and shape (Pareto >= x_m, Exponential >= 0, Uniform in [a,b], Gamma > 0, counts >= 0, sample_n length and consecutive draws, sample_matrix / MVN shapes); the three 128-entry Ziggurat tables regenerated from the source are exactly consistent (K, Y, W, R relations in rational arithmetic), so editing one entry breaks a proof. PARTIAL: the laws of the rejection samplers (Ziggurat, Marsaglia-Tsang and hence beta/chi-squared/t, PTRS, BTPE), loop termination and RNG quality are not provable here; they are decided by the bit-exact tie of 2000-draw streams + final RNG state for every distribution x regime x seed and by the property's own DKW criterion (alpha = 1e-12, n = 2e5 quick / 4e6 thorough) against scipy CDFs. Two open findings are listed in known_findings.txt."),
+        design='DESIGN.md §6 C03',
+        technique='Lean 4 proof (inverse-CDF algebra over R, loop characterisations, exact table arithmetic) + bit-exact stream correspondence + DKW search'),
+    "C09": dict(
+        text=("Kernel-checked theorems about the model of gamma / ln_gamma / beta / digamma / erf with constants regenerated from the source (bits + exact rationals): gamma reflects at most once; the fuelled recursions equal their closed forms; digamma unfolds exactly ceil(6-x) times so psi(x+1) = psi(x) + 1/x holds by construction for x < 6, with series coefficients B_2k/(2k); beta is symmetric for any commutative * and +; erf is odd (x != 0), 0 <= erf x <= 1 for x >= 0 over R with the actual doubles, erf(0) = 18014399/2^54; the Lanczos sum is positive, ln_gamma = log(gamma) on z >= 1/2, the split power equals the legacy single power exactly while the latter overflows from z = 143; the reflection formula is exact and its divisor overflows below -171 (formal core of the open finding). PARTIAL by nature: the accuracy bounds 1e-13 / 1e-12 / 1e-10 / 1.5e-7 are approximation-theoretic and libm-dependent, not provable with what is installed; they are decided by the bit-exact tie (463k requests quick, 8.1M values thorough) plus a stratified search against mpmath at 50 digits with the property's own tolerances (pole-scaled for negative arguments) and the identities Gamma(x+1) = x Gamma(x), Gamma(n+1) = n!, psi(n) = H(n-1) - gamma."),
+        design='DESIGN.md §6 C09',
+        technique='Lean 4 proof (structure/recurrence/sign/positivity over ordered fields and R, exact table decoding) + bit-exact correspondence + mpmath-50 search'),
+    "C10": dict(
+        text=('Kernel-checked refinement theorems: for every gradient oracle, start, hyper-parameters and budget k < 2^31 the model of Adam returns iterate min(k, stopIdx) of the Kingma-Ba recurrence (bias correction with t from 1), and SGD (plain, momentum, Nesterov with the gradient at theta - mu u) likewise; prefix property and determinism; an early stop implies every parameter moved by less than eps relative (signed test); Levenberg-Marquardt (exact solve, ordered field): predicted reduction >= 0, an accepted step strictly decreases the residual sum of squares, rss(theta_t) <= rss(theta_0) for every budget, the stored J^T J / residual belong to the current parameters and the result is (theta, rss/(n-p) (J^T J)^-1) at the returned point; the model of the `reverse` tape returns the formal partial derivatives for programs over + - x neg (PARTIAL for / powi exp sin nodes). LM convergence and rounding are not proved. Tied to the Rust code by bit-exact replay of whole trajectories (maxsteps = 1..K) through an RPN objective catalogue interpreted with real reverse::Var on one side and the tape model on the other; interval-arithmetic recurrence oracle. One open finding (dependency `reverse`: f64 / Var derivative weight) is listed in known_findings.txt.'),
+        design='DESIGN.md §6 C10',
+        technique='Lean 4 proof (loop-to-iterate refinement, LM descent invariant, chain rule over commutative rings) + bit-exact trajectory correspondence'),
+    "C11": dict(
+        text=("Kernel-checked theorems about the models of lu / cholesky / substitutions / det (slice level and Matrix level): whenever cholesky returns a factor it is lower triangular with a positive diagonal, and the sweep rejects exactly at a diagonal cell whose pivot is <= 0 (non-symmetric input panics); for every input the LU pivot vector is a permutation of 0..n-1; the Matrix-level lu, lu_solve, cholesky and substitutions equal the slice-level ones; det = parity x product of U's diagonal; ipiv_parity equals the inversion-count sign for all 873 permutation vectors of size <= 6 (a finite kernel check, labelled as such; the legacy loop is proved wrong on [1,2,3,0]); triangular solves invert triangular systems (C01). PARTIAL: P.A = L.U, L.L^T = A, |l_ij| <= 1 and parity for larger sizes are not proved; they are decided per run by the bit-exact tie and exact big-integer oracles (||PA - LU||, ||LL^T - A|| within c n eps ||A||, |L| <= 1, permutation, exact determinants of integer matrices by Bareiss, indefinite input rejected, Matrix = slice bit for bit)."),
+        design='DESIGN.md §6 C11',
+        technique='Lean 4 proof (loop invariants for pivot permutation / Cholesky shape, decide +kernel for parity) + bit-exact correspondence + exact reconstruction oracle'),
+    "C13": dict(
+        text=('Kernel-checked theorems over an ordered field: acovf/acf equal the biased-estimator sums, are even in the lag (for any scalar type), acf(0) = 1 for non-zero variance, |acf k| <= 1 (Cauchy-Schwarz), lags |k| >= n give 0; difference o cumsum; AR fit: intercept = mean and, given an exact inverse of the Toeplitz matrix, the coefficients satisfy the Yule-Walker equations; predict_one / predict equal mean + the AR recursion on the mean-centred history for every history length; fit and forecasts are shift-equivariant (series + c gives every forecast + c). PARTIAL: exactness of invert_matrix is a hypothesis (C01), convergence of forecasts to the mean and rounding are decided by the bit-exact tie plus exact-integer / 240-bit mpmath oracles with a-priori rounding bounds, paired shifted runs and a horizon-1000 convergence check.'),
+        design='DESIGN.md §6 C13',
+        technique='Lean 4 proof (finite-sum algebra, Cauchy-Schwarz, recursion by induction over the horizon) + bit-exact correspondence'),
+    "C14": dict(
+        text=("Kernel-checked theorems over any (ordered) field: predict is Horner = sum c_i x^i for every coefficient list; vandermonde entry V[i,j] = x_i^j; given an exact inverse of V^T V the fitted coefficients satisfy the normal equations, i.e. the residual is orthogonal to every power x^0..x^d; rss c' = rss c + ||V(c' - c)||^2 >= rss c for every other c' (minimality); data generated by a polynomial of the degree are reproduced. PARTIAL: exactness of invert_matrix is a hypothesis (C01); rounding is decided by the bit-exact tie plus an exact-rational oracle (orthogonality residual scaled by cond(V^T V) eps, perturbation test, exact-integer reproduction)."),
+        design='DESIGN.md §6 C14',
+        technique='Lean 4 proof (normal equations and Pythagoras over fields via Mathlib Matrix) + bit-exact correspondence + exact-rational oracle'),
     "C04": dict(
         text=("Kernel-checked theorems: each of the 8 unrolled kernel macros of vops.rs (8-at-a-time body + remainder) equals List.map / List.zipWith at every "
               "length, for every element type and operator, with `none` (panic) on length mismatch and the scalar on the correct side; vpowi's exponent-2/3 fast path "
